@@ -28,6 +28,8 @@ pub struct ValCase {
     pub underspecified: bool,
     pub excluded: u32,
     pub limits: Limits,
+    /// a compile-time rejection is a pass (imprecise generators)
+    pub reject_ok: bool,
 }
 
 impl ValCase {
@@ -44,6 +46,7 @@ impl ValCase {
             underspecified: false,
             excluded: 0,
             limits: Limits::default(),
+            reject_ok: false,
         }
     }
     pub fn key(mut self, k: &str, v: impl Into<String>) -> Self {
@@ -84,6 +87,9 @@ fn judge(case: &ValCase, out: &Out, prop_kind: &str, cpu_s: u64) -> Vec<Failure>
     if satisfied(&case.expect, out) {
         return vec![];
     }
+    if case.reject_ok && matches!(out, Out::CompileError { .. }) {
+        return vec![];
+    }
     let kind = match out {
         Out::Panic { .. } => "panic",
         Out::CompileError { .. } => "rejected",
@@ -106,8 +112,9 @@ fn judge(case: &ValCase, out: &Out, prop_kind: &str, cpu_s: u64) -> Vec<Failure>
     for (k, v) in &case.keys {
         f = f.key(k, v.clone());
     }
+    f = f.key("body", case.body.clone());
     if let Out::Panic { msg, .. } = out {
-        f = f.key("panic", msg.chars().take(60).collect::<String>());
+        f = f.key("panic", norm_panic(msg));
     }
     vec![f]
 }
@@ -119,29 +126,75 @@ pub fn run_val_batch(
     ctx: &mut Ctx,
     mismatch_kind: &str,
 ) -> Result<Vec<CaseOutcome>, HarnessError> {
-    let cpu_s = 20;
+    run_val_batch_cfg(cases, ctx, &BatchCfg { mismatch_kind, cpu_s: 20, timeouts_inconclusive: false, panics_inconclusive: false })
+}
+
+pub struct BatchCfg<'a> {
+    pub mismatch_kind: &'a str,
+    pub cpu_s: u64,
+    /// a CPU/memory budget overrun is counted as inconclusive instead of being reported
+    /// (every property except C10 / the totality half of C01, C12)
+    pub timeouts_inconclusive: bool,
+    /// a panic is some other property's business (C01): count, do not report
+    pub panics_inconclusive: bool,
+}
+
+pub fn run_val_batch_cfg(
+    cases: Vec<ValCase>,
+    ctx: &mut Ctx,
+    cfg: &BatchCfg,
+) -> Result<Vec<CaseOutcome>, HarnessError> {
+    let cpu_s = cfg.cpu_s;
+    let mismatch_kind = cfg.mismatch_kind;
     let names: Vec<String> = (0..cases.len()).map(|i| format!("c{i}")).collect();
     let same_limits = cases.windows(2).all(|w| w[0].limits == w[1].limits);
     let mut outs: Vec<Option<Out>> = vec![None; cases.len()];
     let mut evals = 0u64;
     if same_limits && cases.len() > 1 {
-        let refs: Vec<&ValCase> = cases.iter().collect();
-        let mut job = Job::new(program_of(&refs, &names));
-        for n in &names {
-            job = job.run(n.clone());
+        // every case is compiled by its own feed into one scope (a rejected case does not
+        // take the batch down), then all are run on one runtime
+        let mut srcs: Vec<String> = Vec::new();
+        let mut steps: Vec<Step> = Vec::new();
+        let mut seen_preludes: Vec<&str> = Vec::new();
+        for c in &cases {
+            if !c.prelude.is_empty() && !seen_preludes.contains(&c.prelude.as_str()) {
+                seen_preludes.push(&c.prelude);
+                steps.push(Step::Compile { src: srcs.len() });
+                srcs.push(c.prelude.clone());
+            }
         }
+        let first_case_step = steps.len();
+        for (c, n) in cases.iter().zip(&names) {
+            steps.push(Step::Compile { src: srcs.len() });
+            srcs.push(format!("fn {n}() -> {} {{\n  {}\n}}\n", c.ret_type, c.body));
+        }
+        steps.push(Step::Instantiate);
+        let inst_step = steps.len() - 1;
+        for n in &names {
+            steps.push(Step::Run { name: n.clone() });
+        }
+        let mut job = Job::new("");
+        job.srcs = srcs;
+        job.steps = steps;
         job.limits = cases[0].limits.clone();
         job.cpu_s = cpu_s;
         let reply = ctx.exec(&job)?;
         evals += 1;
-        let compiled = matches!(reply.step(0), Out::Done) && matches!(reply.step(1), Out::Done);
-        if compiled {
-            for i in 0..cases.len() {
-                // a case is settled by the batch run unless the process died at or before it
-                let idx = 2 + i;
-                if reply.end == End::Ok || reply.died_in.map_or(true, |d| idx < d) {
-                    outs[i] = Some(reply.step(idx).clone());
+        let alive = |idx: usize| reply.end == End::Ok || reply.died_in.map_or(true, |d| idx < d);
+        let instantiated = matches!(reply.step(inst_step), Out::Done);
+        for i in 0..cases.len() {
+            let cstep = first_case_step + i;
+            let rstep = inst_step + 1 + i;
+            if !alive(cstep) {
+                continue;
+            }
+            match reply.step(cstep) {
+                Out::Done => {
+                    if instantiated && alive(rstep) {
+                        outs[i] = Some(reply.step(rstep).clone());
+                    }
                 }
+                other => outs[i] = Some(other.clone()),
             }
         }
     }
@@ -156,7 +209,9 @@ pub fn run_val_batch(
                 let reply = ctx.exec(&job)?;
                 evals += 1;
                 if let Some(f) = end_failure(&reply) {
-                    if f.kind == "timeout" || f.kind == "memory" {
+                    if (f.kind == "timeout" || f.kind == "memory") && cfg.timeouts_inconclusive {
+                        inconclusive = true;
+                    } else if f.kind == "timeout" || f.kind == "memory" {
                         // confirm on a second run with twice the budget before reporting
                         let mut j2 = job.clone();
                         j2.cpu_s = cpu_s * 2;
@@ -185,13 +240,27 @@ pub fn run_val_batch(
             }
         };
         if let Some(o) = &out {
-            failures.extend(judge(case, o, mismatch_kind, cpu_s));
+            if cfg.panics_inconclusive && o.is_panic() {
+                inconclusive = true;
+            } else {
+                failures.extend(judge(case, o, mismatch_kind, cpu_s));
+            }
+        }
+        if cfg.panics_inconclusive {
+            let before = failures.len();
+            failures.retain(|f| f.kind != "abort");
+            if failures.len() != before {
+                inconclusive = true;
+            }
         }
         let key = fnv(format!("{}|{}|{}", case.prelude, case.ret_type, case.body).as_bytes());
+        let mut classes = case.classes.clone();
+        classes.push(format!("out:{}", out.as_ref().map_or("died", |o| o.class())));
         result.push(CaseOutcome {
             key,
-            nontrivial: case.nontrivial,
-            classes: case.classes.clone(),
+            // a case the compiler rejected exercised nothing
+            nontrivial: case.nontrivial && !matches!(out, Some(Out::CompileError { .. })),
+            classes,
             sample: Some(json!({
                 "case": case.describe,
                 "body": case.body,
@@ -271,4 +340,25 @@ pub fn float_src(f: f64) -> String {
 
 pub fn val_json(v: &Value) -> String {
     v.to_string()
+}
+
+/// panic message with numbers blanked and truncated: stable under unrelated edits
+pub fn norm_panic(msg: &str) -> String {
+    let mut out = String::new();
+    let mut last_hash = false;
+    for c in msg.chars() {
+        if c.is_ascii_digit() {
+            if !last_hash {
+                out.push('#');
+            }
+            last_hash = true;
+        } else {
+            out.push(c);
+            last_hash = false;
+        }
+        if out.len() >= 70 {
+            break;
+        }
+    }
+    out
 }
